@@ -27,6 +27,7 @@ void vf_reach(unsigned id);
 uint8_t *vf_malloc(uint64_t n);
 void vf_free_(uint8_t *p);
 uint8_t *vf_realloc_(uint8_t *p, uint64_t n);
+void vf_havoc(uint8_t *p, uint64_t n);
 }
 
 namespace vf {
